@@ -196,6 +196,33 @@ def run(chk):
                                 'trace_prefix': rj['events'][-4:], 'how': 'recorded loop steps not explained by spec/RexLoop.tla'})
         elif rec['unmatched']:
             classify_unmatched(chk, rec)
+    # the pandas entry point: every non-null value of the column(s) is an example (an empty string too)
+    import pandas as _pd
+    from tdda.rexpy import pdextract as _pdextract
+    for j in range(300 if thorough else 60):
+        exs = [e if e is None else e.replace('\x00', '~') for e in rx.rich_examples(rnd)]      # (pandas' unique() truncates at NUL: environment)
+        if j % 3 == 0:
+            exs.append('')
+        ser = _pd.Series(exs, dtype=object)
+        try:
+            if j % 4 == 1 and len(exs) > 1:
+                rexes = _pdextract([ser.iloc[:1], ser.iloc[1:]])
+            else:
+                rexes = _pdextract(ser)
+            raised = 'none'
+        except Exception as exn:
+            rexes, raised = [], '%s: %s' % (type(exn).__name__, str(exn)[:100])
+        vals = sorted({e for e in exs if e is not None})
+        rec = {'tid': 300000 + j, 'examples': exs, 'form': 'Series', 'kw': {}, 'size': None, 'rex': list(rexes), 'raised': raised,
+               'kept': {v_: 1 for v_ in vals}, 'events': [], 'obj': None,
+               'unmatched': [v_ for v_ in vals if not any(rx.full_match(x_, v_) for x_ in rexes)] if raised == 'none' else []}
+        chk.coverage['replayed_cases'] += 1
+        chk.count_case(('series', json.dumps(exs)), nontrivial=len(vals) > 1)
+        if raised != 'none':
+            chk.violation({'kind': 'rex-raises', 'clause': 'NoError', 'error': raised.split(':')[0], 'entry': 'pdextract'},
+                          {'examples': exs, 'raised': raised, 'how': 'tdda.rexpy.pdextract(pandas Series)'})
+        elif rec['unmatched']:
+            classify_unmatched(chk, rec, extra_sig=None)
     chk.coverage['rich_runs'] = nrich
     chk.coverage['rich_runs_with_sampling_sizes'] = sampled
     chk.coverage['loop_traces_accepted'] = len(finals)
